@@ -133,55 +133,98 @@ def r02a(model, ctx):
 
 def r02b(model, ctx):
     R = "R-02b"
-    fn = model.func(f"{PYRTL}::_Compiler._emit_switch")
+    fn = model.func_expanded(f"{PYRTL}::_Compiler._emit_switch", depth=3)
     mod = model.mod(PYRTL)
+    from ..engine.astutil import parent_map
+    pm = parent_map(fn)
     # the non-match form: `for index, case in enumerate(cases)` with `if index == 0: "if ..." else: "elif ..."`
     loops = [n for n in ast.walk(fn) if isinstance(n, ast.For) and pmatch("enumerate(cases)", n.iter) is not None]
     need(len(loops) == 1, "_emit_switch: cannot find the `for index, case in enumerate(cases)` loop")
     loop = loops[0]
     idx_name = loop.target.elts[0].id if isinstance(loop.target, ast.Tuple) else None
     need(idx_name is not None, "_emit_switch: loop target shape changed")
+    def const_text(node):
+        """text of a hole-free template / string constant, else None"""
+        t = template_of(node)
+        if t is not None and not t.holes:
+            return t.text()
+        return None
+
+    def leaf_literals(stmts, accept):
+        """string literals (accepted by `accept`) appended or assigned inside a statement list"""
+        out = []
+        for n in stmts:
+            for c in ast.walk(n):
+                cands = []
+                if isinstance(c, ast.Call) and isinstance(c.func, ast.Attribute) and c.func.attr == "append" and c.args:
+                    cands.append(c.args[0])
+                if isinstance(c, ast.Assign):
+                    cands.append(c.value)
+                    if isinstance(c.value, (ast.List, ast.Tuple)):
+                        cands.extend(c.value.elts)
+                for x in cands:
+                    tx = const_text(x)
+                    if tx is not None and accept(tx.strip()):
+                        out.append(tx.strip())
+        return out
+
+    # (1) first case emits `if`, later ones `elif`: as two templates under `if index == 0`, or as one template whose
+    #     keyword hole is `"if" if index == 0 else "elif"`
+    binds = {unparse(st.targets[0]): st.value for st in ast.walk(loop) if isinstance(st, ast.Assign) and len(st.targets) == 1}
     first_if = None
-    for s in loop.body:
-        if isinstance(s, ast.If) and pmatch(f"{idx_name} == 0", s.test) is not None:
-            first_if = s
-    need(first_if is not None, "_emit_switch: no `if index == 0` split between `if` and `elif` emission")
+    for st in loop.body:
+        if isinstance(st, ast.If) and pmatch(f"{idx_name} == 0", st.test) is not None:
+            first_if = st
 
     def head(stmts):
         for n in stmts:
             for c in ast.walk(n):
                 if isinstance(c, ast.Call) and isinstance(c.func, ast.Attribute) and c.func.attr == "append" and c.args:
                     t = template_of(c.args[0])
-                    if t is not None and t.parts and isinstance(t.parts[0], str):
+                    if t is not None and t.parts and isinstance(t.parts[0], str) and t.parts[0].strip():
                         return t.parts[0].split(" ")[0], t
         return None, None
 
-    h0, t0 = head(first_if.body)
-    h1, t1 = head(first_if.orelse)
+    templates = []
+    if first_if is not None:
+        h0, t0 = head(first_if.body)
+        h1, t1 = head(first_if.orelse)
+        templates = [t for t in (t0, t1) if t is not None]
+        where_if = first_if.lineno
+    else:
+        h0 = h1 = None
+        where_if = loop.lineno
+        for c in ast.walk(loop):
+            if isinstance(c, ast.Call) and isinstance(c.func, ast.Attribute) and c.func.attr == "append" and c.args:
+                t = template_of(c.args[0])
+                if t is not None and t.holes and t.skeleton().startswith("{0} "):
+                    kw = binds.get(t.holes[0].src, t.holes[0].expr)
+                    if isinstance(kw, ast.IfExp) and pmatch(f"{idx_name} == 0", kw.test) is not None:
+                        h0, h1 = const_str(kw.body), const_str(kw.orelse)
+                        templates = [t]
+                    elif isinstance(kw, ast.IfExp) and pmatch(f"{idx_name} != 0", kw.test) is not None:
+                        h0, h1 = const_str(kw.orelse), const_str(kw.body)
+                        templates = [t]
+        need(templates, "_emit_switch: neither an `if index == 0` split nor a keyword chosen by `index == 0` was found")
     ctx.check(h0 == "if" and h1 == "elif", R, "_emit_switch:if/elif",
               "first case emits `if`, later cases emit `elif` (first match wins)",
               f"first case must emit `if` and every later case `elif`; found {h0!r} / {h1!r} "
               f"(independent `if`s would let a later matching case override an earlier one)",
-              f"{PYRTL}:{first_if.lineno}")
+              f"{PYRTL}:{where_if}")
     # the same check list is or-ed
-    for t in (t0, t1):
-        if t is not None:
-            ok = any("' or '.join" in h.src for h in t.holes)
-            ctx.check(ok, R, f"_emit_switch:or-join:{t.parts[0].strip()}", "patterns of one case are or-ed",
-                      f"patterns of one case must be combined with `or`: {t.skeleton()!r}", f"{PYRTL}:{first_if.lineno}")
+    for t in templates:
+        ok = any("' or '.join" in h.src for h in t.holes)
+        ctx.check(ok, R, f"_emit_switch:or-join:{(t.parts[0].strip() if isinstance(t.parts[0], str) and t.parts[0].strip() else 'if/elif')}",
+                  "patterns of one case are or-ed",
+                  f"patterns of one case must be combined with `or`: {t.skeleton()!r}", f"{PYRTL}:{where_if}")
     # None -> True ; empty -> False
     truth = {}
-    for s in loop.body:
-        if isinstance(s, ast.If):
-            for lf in dispatch_leaves([s], guard=_patterns_guard):
-                lit = None
-                for n in lf.body:
-                    for c in ast.walk(n):
-                        if isinstance(c, ast.Call) and isinstance(c.func, ast.Attribute) and c.func.attr == "append" \
-                                and c.args and template_of(c.args[0]) is not None and not template_of(c.args[0]).holes:
-                            lit = template_of(c.args[0]).text()
-                if lit is not None:
-                    truth[lf.conds] = lit
+    for st in loop.body:
+        if isinstance(st, ast.If):
+            for lf in dispatch_leaves([st], guard=_patterns_guard):
+                lits = leaf_literals(lf.body, lambda x: x in ("True", "False"))
+                if lits:
+                    truth[lf.conds] = lits[-1]
     tv = {("none" if any(a[0] == "isnone" for a in k) else "empty" if any(a[0] == "empty" for a in k) else "?"): v
           for k, v in truth.items()}
     ctx.check(tv.get("none") == "True" and tv.get("empty") == "False", R, "_emit_switch:default/never",
@@ -190,13 +233,16 @@ def r02b(model, ctx):
     # the match form: `case _:` only under patterns is None
     wild = []
     for c in ast.walk(fn):
+        tx = None
         if isinstance(c, ast.Call) and isinstance(c.func, ast.Attribute) and c.func.attr == "append" and c.args:
-            t = template_of(c.args[0])
-            if t is not None and t.text().strip() == "case _:":
-                p = mod.parent(c)
-                while p is not None and not isinstance(p, ast.If):
-                    p = mod.parent(p)
-                wild.append(p)
+            tx = const_text(c.args[0])
+        elif isinstance(c, ast.Assign):
+            tx = const_text(c.value)
+        if tx is not None and tx.strip() == "case _:":
+            p = pm.get(c)
+            while p is not None and not isinstance(p, ast.If):
+                p = pm.get(p)
+            wild.append(p)
     ok = len(wild) == 1 and wild[0] is not None and pmatch("patterns is None", wild[0].test) is not None
     ctx.check(ok, R, "_emit_switch:match-default", "`case _:` emitted only for the default case",
               "`case _:` (match everything) must be emitted only when patterns is None", f"{PYRTL}:{fn.lineno}")
@@ -235,10 +281,15 @@ def r02b(model, ctx):
                       (f"{IR}::NetlistEmitter.emit_rhs", "elems")]:
         f2 = model.func(ref)
         hits = [n for n in ast.walk(f2) if isinstance(n, ast.Call) and dotted(n.func) == "zip" and len(n.args) == 2
-                and unparse(n.args[0]) == "conds" and unparse(n.args[1]) == what]
-        ctx.check(len(hits) >= 1, R, f"{ref.split('::')[1]}:zip(conds,{what})",
+                and unparse(n.args[0]) == "conds"]
+        need(hits, f"{ref}: no zip(conds, ...) pairing found")
+        # the partner is the per-case list built in the loop that built the patterns, or the case sequence itself
+        ok = all(unparse(n.args[1]) == what or (isinstance(n.args[1], ast.Attribute) and n.args[1].attr in ("cases", "_cases"))
+                 for n in hits)
+        ctx.check(ok, R, f"{ref.split('::')[1]}:zip(conds,{what})",
                   "match outputs paired with cases positionally",
-                  f"expected zip(conds, {what}) pairing of match outputs with their cases", f"{IR}:{f2.lineno}")
+                  f"expected zip(conds, {what}) (or the case sequence itself) pairing match outputs with their cases in order; "
+                  f"found {[unparse(n) for n in hits]}", f"{IR}:{f2.lineno}")
 
 
 def _patterns_guard(test):
@@ -520,9 +571,27 @@ def r02d(model, ctx):
                   f"unify_shapes_bitwise must extend {a} with {sa} to shape.width", f"{IR}:{fu.lineno}")
     # extend(): sign extension replicates the MSB, zero extension appends const 0
     fe = model.func(f"{IR}::NetlistEmitter.extend")
-    paths = [s for s in ast.walk(fe) if isinstance(s, ast.If) and unparse(s.test) == "signed"]
-    ok = len(paths) == 1 and pmatch("nets.append(nets[-1])", paths[0].body[0].value) is not None and \
-        pmatch("nets.append(_nir.Net.from_const(0))", paths[0].orelse[0].value) is not None
+    # the fill bit is chosen by `signed`: nets[-1] (the MSB) when signed, constant 0 otherwise — as an if statement around
+    # the appends or as a conditional expression; other ways of choosing the fill are not understood (exit 2)
+    sel_if = [s for s in ast.walk(fe) if isinstance(s, ast.If) and unparse(s.test) in ("signed", "not signed")]
+    sel_exp = [s for s in ast.walk(fe) if isinstance(s, ast.IfExp) and unparse(s.test) in ("signed", "not signed")]
+    need(len(sel_if) + len(sel_exp) == 1, "NetlistEmitter.extend: the choice of the fill bit by `signed` was not found")
+    MSB, ZERO = "nets[-1]", "_nir.Net.from_const(0)"
+    if sel_if:
+        neg = unparse(sel_if[0].test) != "signed"
+        def appended(stmts):
+            return [unparse(c.args[0]) for st in stmts for c in ast.walk(st)
+                    if isinstance(c, ast.Call) and unparse(c.func) == "nets.append" and len(c.args) == 1]
+        a, b = appended(sel_if[0].body), appended(sel_if[0].orelse)
+        if neg:
+            a, b = b, a
+        ok = a == [MSB] and b == [ZERO]
+    else:
+        neg = unparse(sel_exp[0].test) != "signed"
+        a, b = unparse(sel_exp[0].body), unparse(sel_exp[0].orelse)
+        if neg:
+            a, b = b, a
+        ok = a == MSB and b == ZERO
     ctx.check(ok, R, "NetlistEmitter.extend", "signed: replicate MSB; unsigned: append 0",
               "extend() must replicate nets[-1] when signed and append constant 0 otherwise", f"{IR}:{fe.lineno}")
 
@@ -1008,6 +1077,16 @@ return 0
 
 # ----------------------------------------------------------------------------------------------- R-02f
 
+# equivalent spellings of "the mask, moved up by start and clipped to the window [start, stop)" (start <= stop for a Slice)
+SLICE_MASK_FORMS = [
+    "mask << value.start & (1 << value.stop) - (1 << value.start)",
+    "(mask & (1 << value.stop - value.start) - 1) << value.start",
+    "(mask & (1 << len(value)) - 1) << value.start",
+    "mask << value.start & ((1 << value.stop - value.start) - 1 << value.start)",
+    "mask << value.start & ((1 << len(value)) - 1 << value.start)",
+]
+
+
 def r02f(model, ctx):
     R = "R-02f"
     fn, lvs = interp.leaves(model, f"{XFRM}::LHSMaskCollector.visit_value")
@@ -1018,8 +1097,8 @@ def r02f(model, ctx):
              if isinstance(n, ast.Call) and unparse(n.func) == "self.visit_value"]
     ok = len(calls) == 1 and unparse(calls[0].args[0]) == "value.value"
     if ok:
-        m = pmatch("mask << value.start & (1 << value.stop) - (1 << value.start)", calls[0].args[1])
-        ok = m is not None
+        from ..engine.bitalg import same_value
+        ok = any(same_value(calls[0].args[1], alt) for alt in SLICE_MASK_FORMS)
     ctx.check(ok, R, "LHSMaskCollector:Slice", "(mask << start) & ((1<<stop)-(1<<start))",
               f"Slice must shift the mask up by start and clip it to [start, stop); found "
               f"{unparse(calls[0].args[1]) if calls else '-'}", f"{XFRM}:{lf.lineno}")
